@@ -35,6 +35,9 @@ def generate(seed, tier="quick", mode=None, **kw):
     if "words" in feats:
         GC.add_words(r, o, n=r.randint(1, 2))
         o["words"] = [w for w in o["words"] if len(w) >= 5] or None
+    if mode == "c07" and o["salt"] and r.random() < 0.1:
+        # secrets are removed just the same when the run also undoes an earlier IP anonymization
+        o["ip"], o["undo"] = False, True
     nid = r.randint(2, 6)
     odd_salt = bool(o["salt"]) and o["salt"][0] not in G.J9_ALPHA or o["salt"] == ""
     cls_list = ["j9p", "j9p", "c9", "j9p-num", "text", "md5"] if odd_salt else None
